@@ -55,15 +55,22 @@ Definition apply_rows (T : table) (d : dbstate) (sel : list (sym * gmap sym valu
     requested column the expected row provides; the selected rows equal the
     expected rows if every selected row matches some expected row and every
     expected row is matched by some selected row *)
-Definition wait_matches (cols : list sym) (found : row) (expected : row) : bool :=
+Definition wait_matches (T : table) (all : bool) (cols : list sym) (found : row) (expected : row) : bool :=
   forallb (fun c => match expected !! c with
                     | Some x => bool_decide (found !! c = Some x)
-                    | None => true
+                    | None =>
+                        (* without "columns" a column the expected row leaves out has its default value there;
+                           with "columns" it is not compared *)
+                        if all then match find_col T c with
+                                    | Some C => bool_decide (found !! c = Some (default_value (c_ty C)))
+                                    | None => true
+                                    end
+                        else true
                     end) cols.
 
-Definition wait_rows_equal (cols : list sym) (sel : list (sym * gmap sym value)) (rows : list (gmap sym value)) : bool :=
-  forallb (fun ur => existsb (wait_matches cols (snd ur)) rows) sel
-  && forallb (fun e => existsb (fun ur => wait_matches cols (snd ur) e) sel) rows.
+Definition wait_rows_equal (T : table) (all : bool) (cols : list sym) (sel : list (sym * gmap sym value)) (rows : list (gmap sym value)) : bool :=
+  forallb (fun ur => existsb (wait_matches T all cols (snd ur)) rows) sel
+  && forallb (fun e => existsb (fun ur => wait_matches T all cols (snd ur) e) sel) rows.
 
 Definition exec_op (S : schema) (d0 d : dbstate) (o : op) : result * dbstate :=
   let with_table t (k : table -> result * dbstate) :=
@@ -113,7 +120,7 @@ Definition exec_op (S : schema) (d0 d : dbstate) (o : op) : result * dbstate :=
       with_table t (fun T =>
         if negb (conds_valid T wh) then (RErr EOther, d)
         else let cols' := match cols with [] => map c_name (t_cols T) | _ => cols end in   (* omitted: every column *)
-             let same := wait_rows_equal cols' (select_uuids d t wh) rows in
+             let same := wait_rows_equal T (match cols with [] => true | _ => false end) cols' (select_uuids d t wh) rows in
              if Bool.eqb same until_eq then (REmpty, d) else (RErr ETimedOut, d))
   | OOther => (RErr ENotSupported, d)
   end.
